@@ -346,6 +346,8 @@ def build_request(ex, meta):
         r["trait"] = o["trait"]
     if "derive" in o:
         r["derive_keep"] = [x for x in o["derive"].split(",") if x and x != "Structural"]
+    if "acc_type" in o:
+        r["acc_type"] = o["acc_type"].replace("~", " ")
     if "copied_collect_as" in o:
         r["copied_collect_as"] = o["copied_collect_as"]
     if "extend_with" in o:
